@@ -131,11 +131,39 @@ def check_cfg(ctx, rep, f, cfg):
                 and "TwoFloat" not in b.output and "f64" not in b.output and not pol0.has_loop_or_recursion(b):
             helpers.add(b.ident())
     rep.analysed["classification_helpers" + sfx] = sorted(helpers)
+    # keys of every function some run-time body calls
+    called = set()
     for b in f.live:
+        for mir in [b.mir] + list(b.promoted):
+            for blk in mir["blocks"]:
+                t = blk["t"]
+                if t["k"] == "call" and "f" in t:
+                    r = t["f"].get("res") or {}
+                    if r.get("key"):
+                        called.add(r["key"])
+    # a closure that builds a TwoFloat is read where it runs: its parent is evaluated with closures and core's Option / bool
+    # plumbing (`cond.then(|| TwoFloat { .. })`) read through, so that the parent's tests dominate the closure's aggregate
+    closures_with_sites = [b for b in f.live if b.kind == "Closure" and raw_sites(b)]
+    extra_parents = []
+    for c in closures_with_sites:
+        par = [p_ for p_ in f.live if p_.kind != "Closure" and c.key.startswith(p_.key + "::")]
+        par.sort(key=lambda p_: -len(p_.key))
+        if par and not raw_sites(par[0]) and par[0] not in extra_parents:
+            extra_parents.append(par[0])
+    through = set(helpers) | {b.ident() for b in f.live if b.kind == "Closure"} | {pb.ident() for pb in f.plumbing.values()}
+    work = [b for b in f.live if b.kind != "Closure" and (raw_sites(b) or b in extra_parents)] + closures_with_sites
+    for b in work:
         sites = raw_sites(b)
-        if not sites:
+        if b.kind == "Closure" and b.ident() in vg.COVERED:
+            rep.ok("R1", b.ident() + " (closure read in its parent)" + sfx, detail="classified where it is called", nontrivial=False)
+            total_sites += len(sites)
             continue
         total_sites += len(sites)
+        if not b.reachable and b.trait is None and b.j.get("is_const_fn") and b.key not in called and b.kind != "Closure":
+            # a private const fn that no run-time body calls exists only inside constant initialisers; what it builds
+            # are the constants themselves, each of which R1c validates in exact rationals
+            rep.ok("R1", b.ident() + " (compile-time-only helper)" + sfx, detail="private const fn without run-time callers: its results are the constants checked by R1c", nontrivial=False)
+            continue
         if not b.reachable and b.trait is None and pol0.is_accessor(b):
             # a private function that only packages its arguments is inlined into every caller, where
             # the aggregate is classified in context; it cannot be called from outside the crate
@@ -143,7 +171,7 @@ def check_cfg(ctx, rep, f, cfg):
             continue
         try:
             try:
-                t = H.tree_of(f, b, "none", inline_extra=helpers)
+                t = H.tree_of(f, b, "none", inline_extra=through)
             except vg.Unsupported:
                 # bodies with loops (powi): over-approximate the loop, the aggregate sites stay visible
                 ex = vg.Exec(f, vg.Policy(f, "none"), loops="havoc")
@@ -166,7 +194,7 @@ def check_cfg(ctx, rep, f, cfg):
                 counts[k] = counts.get(k, 0) + 1
                 n_ok += 1
                 rep.ok("R1", inst, detail="%s: %s" % (k, why), nontrivial=(k not in ("k2",)))
-        if not found:
+        if not found and sites:
             rep.fail("R1", b.ident() + sfx, "lost-site:" + b.ident(), "aggregate sites of %s were not reached by the evaluator" % b.ident(), where=H.where(b))
     rep.analysed["sites" + sfx] = total_sites
     rep.analysed["classes" + sfx] = counts
@@ -214,6 +242,7 @@ def check_cfg(ctx, rep, f, cfg):
     rep.check(True, "R1b", "no in-place word stores" + sfx, "x", "", detail="%d field stores into TwoFloat places" % n_fs, nontrivial=False)
     # R2 returned values of reachable functions
     n_r = 0
+    LOCAL_IDENTS.clear(); LOCAL_IDENTS.update(b.ident() for b in f.live)
     for b in f.live:
         if b.kind == "Closure" or b.output not in (TF, "(TwoFloat, TwoFloat)", "core::option::Option<TwoFloat>", "core::result::Result<TwoFloat, TwoFloatError>"):
             continue
@@ -256,6 +285,8 @@ def returned_tfs(v):
     else:
         yield v
 
+LOCAL_IDENTS = set()     # idents of the crate's bodies (filled per run)
+
 FOREIGN_OK = ("core::iter::Iterator::fold", "core::option::Option::<T>::unwrap", "core::option::Option::<T>::map", "core::option::Option::<T>::map_or_else",
               "<core::iter::Rev<I> as core::iter::Iterator>::fold", "core::result::Result::<T, E>::map_err", "core::result::Result::<T, E>::ok")
 
@@ -267,8 +298,8 @@ def ok_source(v):
         return True
     if t == "call":
         n = v[1]
-        if n.startswith("op:") or n.startswith("TwoFloat::") or n.startswith("fn:") or n.startswith("<"):
-            return True
+        if n.startswith("op:") or n.startswith("TwoFloat::") or n.startswith("fn:") or n.startswith("<") or n in LOCAL_IDENTS:
+            return True      # a function of this crate: its own returns are classified where it is defined
         if re.match(r"^core::ops::\w+::\w+<TwoFloat,", n):
             # an operator on TwoFloat not resolved inside a private generic helper: every impl is either one of
             # the crate's (classified itself) or a downstream one, which can only use the public constructors
